@@ -431,6 +431,22 @@ class TagDocs(Part):
                 ctx.violation("styling", "C04/switch/rendered-although-disabled", "Console(markup=%r).render_str(%r, markup=%r) gives %r with %r; markup is disabled for this call" % (cm, markup, pm, t3.plain, t3.spans))
                 return
             ctx.cls("console-switch-%s-%s" % (cm, pm))
+        # on a console that highlights (the default): the highlighter may add styling below the tags, never above them - whatever the open tags specify still holds
+        conh = sut(Console, file=io.StringIO(), emoji=False, highlight=True, color_system=None, width=400, _environ={})
+        t4 = sut(conh.render_str, markup, emoji=False)
+        hv = TV.char_styles(t4)
+        if t4.plain != plain:
+            ctx.violation("plain", "C04/highlight/plain", "Console(highlight=True).render_str(%r) gives text %r, expected %r" % (markup, t4.plain, plain))
+            return
+        for i, ((ch, tagv), (_, effv)) in enumerate(zip(got, hv)):
+            eff_attrs = dict(effv[0])
+            bad = [a for a, v in tagv[0] if eff_attrs.get(a) != v] + [n for n, k in (("color", 1), ("bgcolor", 2), ("link", 3)) if tagv[k] is not None and effv[k] != tagv[k]]
+            if bad:
+                ctx.violation("styling", "C04/highlight/overrides-tag", "Console(highlight=True).render_str(%r): character %d %r is inside tags that give it %r, but it comes out as %r (%s overridden by the highlighter)" % (
+                    markup, i, ch, tagv, effv, ", ".join(bad)))
+                return
+        if any(e != g[1] for g, (_, e) in zip(got, hv)):
+            ctx.cls("highlighter-added-styling")
         # print() and log() with several string arguments: every argument is markup of its own (what one leaves open does not run into the next),
         # and the per-call switches of log() mean what those of print() mean
         if spec.get("args") is not None and len(evs) >= 2:
